@@ -287,6 +287,27 @@ def run(ctx):
                 ok = want is not None and got == want and t.final == N.mk_add(P0(STREAM), d[0])
             detail = "returns %s" % N.show(got)
     ctx.ob("C16.R6", cls_[0] if cls_ else mf, ok, "PrefixedArray._actualsize returns the bytes the count field took plus count * sizeof(element) -- independent of where the array starts (%s)" % detail, key="PrefixedArray probe amount")
+    # any other macro that patches a size probe onto its result: the probe must be what the construct the macro returns consumes.  Decided for a
+    # byte-length prefix (the returned term contains Prefixed(lengthfield, ...)): bytes of the length field + the parsed length, no scaling
+    for mname, mf2 in sorted(M.macros().items()):
+        if mname == "PrefixedArray":
+            continue
+        for cl in M.closures(mf2):
+            if cl.name != "_actualsize":
+                continue
+            rets = [p.retval for p in paths_of(ctx, mf2) if p.returns and p.retval is not None]
+            has_prefixed = any(x[0] == "ctor" and x[1] == "Prefixed" for r in rets for x in N.walk(r))
+            ps = [p for p in paths_of(ctx, cl) if p.returns]
+            if not has_prefixed or len(ps) != 1:
+                ctx.error("C16.R6 undecided: the macro %s patches a size probe (_actualsize) the rule has no reference for" % mname)
+                continue
+            p = ps[0]
+            t = Trace(p, STREAM)
+            got = t.val(p.retval)
+            cf = [e for e in p.events if e.kind == "SUB" and e["m"] in ("_parse", "_parsereport") and e["stream"] == STREAM]
+            d = [k for k, e in t.deltas.items() if cf and e is cf[0]]
+            want = N.mk_add(d[0], cf[0]["res"]) if d else None
+            ctx.ob("C16.R6", cl, want is not None and got == want, "%s._actualsize returns the bytes the length field took plus the byte length it announced (got %s)" % (mname, N.show(got)), key="%s probe amount" % mname)
     ctx.floor("C16.R6", 3)
     # ---------------------------------------------------------------- R7 skipping a member by _sizeof lands where parsing it would: sizeof = parse amount for every class (shared with C05.R2)
     from ..core import Ctx as _Ctx
@@ -353,7 +374,36 @@ def run(ctx):
             fe, b = sigset(eager, meth, drop_discard=dd)
             ctx.ob("C16.R4", fl, a == b, "%s.%s is path-for-path identical to %s.%s%s (%d vs %d path signatures, %d differ)" % (
                 lazy, meth, eager, meth, " modulo discard" if dd else "", len(a), len(b), len(a ^ b)), key="clone %s" % meth)
-    ctx.floor("C16.R4", 4)
+    # ... and they refuse exactly the configurations the eager classes refuse (a count of 0 is an empty array, not an error)
+    def early_refusals(cls):
+        fi, paths = method_paths(ctx, cls, "_parse")
+        out = set()
+        for p in paths:
+            if p.outcome[0] != "raise" or any(e.kind in ("SUB", "READ", "READALL", "SEEK", "TELL") for e in p.events):
+                continue
+            out.add((frozenset(N.canon_lids(c) for c in p.guards()), p.outcome[1].get("cls")))
+        return fi, out
+    for lazy, eager in (("LazyArray", "Array"), ("LazyStruct", "Struct")):
+        fl, a = early_refusals(lazy)
+        fe, b = early_refusals(eager)
+        ctx.ob("C16.R4", fl, a == b, "%s._parse refuses up front exactly what %s._parse refuses (%s vs %s)" % (lazy, eager, sorted((sorted(map(N.show, g)), c) for g, c in a), sorted((sorted(map(N.show, g)), c) for g, c in b)), key="%s early refusals" % lazy)
+    # the deferred parses run in the scope the eager parse would have used: LazyStruct hands its LazyContainer the *nested* context its members
+    # were measured in (this._ must be the enclosing structure when a member is parsed later), LazyArray the incoming one (like Array's elements)
+    for lazy, holder in (("LazyStruct", "LazyContainer"), ("LazyArray", "LazyListContainer")):
+        fl, pl = method_paths(ctx, lazy, "_parse")
+        okc, nn = True, 0
+        for p in pl:
+            if not p.returns or p.retval is None or p.retval[0] != "new" or p.retval[1] != holder:
+                continue
+            nn += 1
+            news = [e["res"] for e in p.events if e.kind == "NEWCTX"]
+            want = news[-1] if lazy == "LazyStruct" and news else CTX
+            args = p.retval[3]
+            okc = okc and len(args) >= 2 and args[-1] == PATH and args[-2] == want and (lazy != "LazyStruct" or bool(news))
+            subs = [e for e in p.events if e.kind == "SUB" and e["m"] in ("_actualsize", "_parsereport")]
+            okc = okc and all(e["ctx"] == want for e in subs)
+        ctx.ob("C16.R4", fl, okc and nn >= 1, "%s._parse gives %s the context its members are parsed in (the %s one) and the path" % (lazy, holder, "nested" if lazy == "LazyStruct" else "incoming"), key="%s deferred context" % lazy)
+    ctx.floor("C16.R4", 8)
 
     arity_check(ctx, "C16.R5")
     ctx.floor("C16.R5", 20)
